@@ -379,12 +379,42 @@ func (e *Engine) fieldReassigned(t types.Type, f string) bool {
 				if _, isAlloc := fa.X.(*ssa.Alloc); isAlloc {
 					continue // construction of a fresh object
 				}
+				if freshLocalPointer(fa.X) {
+					continue // x := &T{...}; x.f = ...  (x only ever holds objects allocated here)
+				}
 				res = true
 			}
 		}
 	}
 	e.reassignCache[key] = res
 	return res
+}
+
+// freshLocalPointer: v is the load of a local variable that is only ever
+// assigned objects allocated by this function (or v is such an allocation):
+// stores through it initialise an object before it is published.
+func freshLocalPointer(v ssa.Value) bool {
+	ld, ok := v.(*ssa.UnOp)
+	if !ok || ld.Op != token.MUL {
+		return false
+	}
+	cell, ok := ld.X.(*ssa.Alloc)
+	if !ok || cell.Heap && false {
+		return false
+	}
+	n := 0
+	for _, ref := range *cell.Referrers() {
+		st, ok := ref.(*ssa.Store)
+		if !ok || st.Addr != ssa.Value(cell) {
+			continue
+		}
+		n++
+		a, isAlloc := st.Val.(*ssa.Alloc)
+		if !isAlloc || !a.Heap {
+			return false
+		}
+	}
+	return n > 0
 }
 
 // acquiredTargets: the heap locations protected by the locks a contract says
